@@ -50,4 +50,22 @@ theorem skeletons_agree :
    skeleton_connectDestroyed, skeleton_handleRead, skeleton_handleWrite, skeleton_handleClose, skeleton_handleError,
    skeleton_handleEventWithGuard⟩
 
+/-! the trampolines that run the weak functors (`TcpConnection.cc`'s `notify*`, `WeakCallback::operator()`) and the
+default callbacks -/
+theorem skeleton_notifyWriteComplete : Gen.ConnSkel.notifyWriteComplete = Decl.notifyWriteComplete := by decide
+theorem skeleton_notifyHighWaterMark : Gen.ConnSkel.notifyHighWaterMark = Decl.notifyHighWaterMark := by decide
+theorem skeleton_weakCallbackCall : Gen.ConnSkel.weakCallbackCall = Decl.weakCallbackCall := by decide
+theorem skeleton_defaultConnectionCallback : Gen.ConnSkel.defaultConnectionCallback = Decl.defaultConnectionCallback := by decide
+theorem skeleton_defaultMessageCallback : Gen.ConnSkel.defaultMessageCallback = Decl.defaultMessageCallback := by decide
+
+/-- lock, test, call - in the three trampolines; the default callbacks do what the model assumes -/
+theorem trampolines_agree :
+    Gen.ConnSkel.notifyWriteComplete = Decl.notifyWriteComplete ∧
+    Gen.ConnSkel.notifyHighWaterMark = Decl.notifyHighWaterMark ∧
+    Gen.ConnSkel.weakCallbackCall = Decl.weakCallbackCall ∧
+    Gen.ConnSkel.defaultConnectionCallback = Decl.defaultConnectionCallback ∧
+    Gen.ConnSkel.defaultMessageCallback = Decl.defaultMessageCallback :=
+  ⟨skeleton_notifyWriteComplete, skeleton_notifyHighWaterMark, skeleton_weakCallbackCall,
+   skeleton_defaultConnectionCallback, skeleton_defaultMessageCallback⟩
+
 end MuduoVerif.ConnSkel
